@@ -31,6 +31,7 @@ type Obligation struct {
 // ---------- heap view ----------
 
 type lazyH struct {
+	id     int
 	prefix string
 	ref    string // "" = whole array havocked
 	idx    string
@@ -135,16 +136,22 @@ func (c *FnCtx) heapGet(h *HeapView, key, sort string) string {
 		if !keyMatches(key, l.prefix) {
 			continue
 		}
+		// the symbol is a function of (havoc event, key) so that every copy of the heap view that
+		// materialises the key later agrees on it
+		nm := sym(fmt.Sprintf("Hl%d %s", l.id, key))
 		if l.ref == "" {
-			a = c.fresh("Hh "+key, arraySort(key, sort))
+			c.declare(nm, arraySort(key, sort))
+			a = nm
 		} else if strings.HasPrefix(key, "[]") || (strings.HasPrefix(key, "map[") && !strings.HasSuffix(key, "#len")) {
 			inner := "(Array Int " + sort + ")"
 			if strings.HasPrefix(key, "map[string]") {
 				inner = "(Array String " + sort + ")"
 			}
-			a = fmt.Sprintf("(store %s %s %s)", a, l.ref, c.fresh("Hp "+key, inner))
+			c.declare(nm, inner)
+			a = fmt.Sprintf("(store %s %s %s)", a, l.ref, nm)
 		} else {
-			a = fmt.Sprintf("(store %s %s %s)", a, l.ref, c.fresh("Hp "+key, sort))
+			c.declare(nm, sort)
+			a = fmt.Sprintf("(store %s %s %s)", a, l.ref, nm)
 		}
 	}
 	h.m[key] = a
@@ -170,7 +177,8 @@ func (c *FnCtx) havoc(h *HeapView, prefix, ref string) {
 			h.m[k] = fmt.Sprintf("(store %s %s %s)", h.m[k], ref, c.fresh("Hp "+k, srt))
 		}
 	}
-	h.lazy = append(h.lazy, lazyH{prefix: prefix, ref: ref})
+	c.nfresh++
+	h.lazy = append(h.lazy, lazyH{id: c.nfresh, prefix: prefix, ref: ref})
 }
 
 // ---------- paths and frames ----------
